@@ -274,6 +274,24 @@ func splatRoundTrip(c *run.Ctx) (res run.Result) {
 			}
 		}
 	}
+	data := checkSplatCloud(c, &res, ss, "")
+
+	if c.Case < 2 {
+		smp := map[string]any{"splats": n, "pos_class": d.posClass, "scale_class": d.scaleClass, "file_bytes": len(data)}
+		if n > 0 {
+			smp["splat_0"] = ss[0]
+		}
+		res.Sample = smp
+	}
+	return
+}
+
+// checkSplatCloud applies the whole .splat oracle to one cloud: polyform writes it, reads it
+// back (the round trip of the property), the written bytes are dequantised by the reference
+// decoder, and the reference encoding of the cloud is read by polyform. ctx is appended to
+// the violation sites (e.g. " after an injected I/O fault"). Returns the bytes polyform wrote.
+func checkSplatCloud(c *run.Ctx, res *run.Result, ss []splatref.Splat, ctx string) []byte {
+	n := len(ss)
 	witness := func(i int, orig, got splatref.Splat) any {
 		return map[string]any{"splats": n, "index": i, "original": orig, "decoded": fmt.Sprintf("%+v", got)}
 	}
@@ -281,6 +299,7 @@ func splatRoundTrip(c *run.Ctx) (res run.Result) {
 		for i := range ss {
 			if f, msg := compareSplat(ss[i], got[i]); f != "" {
 				res.Violate("splat-"+f, site, fmt.Sprintf("cloud of %d splats", n), fmt.Sprintf("splat %d of %d: %s", i, n, msg), witness(i, ss[i], got[i]))
+				break
 			}
 		}
 		res.Count("splat/splats_compared", int64(len(ss)))
@@ -293,12 +312,12 @@ func splatRoundTrip(c *run.Ctx) (res run.Result) {
 	var werr error
 	c.Note(fmt.Sprintf("splat.Write of %d splats", n))
 	if p := run.Try(func() { werr = splat.Write(buf, mesh) }); p != nil {
-		res.Violate("panic", "splat.Write", fmt.Sprintf("cloud of %d splats", n), p.Value+"\n"+p.Stack, nil)
-		return
+		res.Violate("panic", "splat.Write"+ctx, fmt.Sprintf("cloud of %d splats", n), p.Value+"\n"+p.Stack, nil)
+		return nil
 	}
 	if werr != nil {
-		res.Violate("splat-write-error", "splat.Write", fmt.Sprintf("cloud of %d splats", n), "valid splat cloud rejected: "+werr.Error(), nil)
-		return
+		res.Violate("splat-write-error", "splat.Write"+ctx, fmt.Sprintf("cloud of %d splats", n), "valid splat cloud rejected: "+werr.Error(), nil)
+		return nil
 	}
 	data := buf.Bytes()
 
@@ -322,10 +341,10 @@ func splatRoundTrip(c *run.Ctx) (res run.Result) {
 		}
 		compareAll(site, got)
 	}
-	readBack("splat.Write→splat.Read", data)
+	readBack("splat.Write→splat.Read"+ctx, data)
 
 	if len(data) != 32*n {
-		res.Violate("splat-file-size", "splat.Write (bytes vs published layout)", fmt.Sprintf("cloud of %d splats", n),
+		res.Violate("splat-file-size", "splat.Write (bytes vs published layout)"+ctx, fmt.Sprintf("cloud of %d splats", n),
 			fmt.Sprintf("%d bytes written for %d splats; the format has 32-byte records (%d bytes)", len(data), n, 32*n), nil)
 	} else {
 		// 3. the bytes polyform wrote, dequantised by the reference decoder
@@ -333,19 +352,11 @@ func splatRoundTrip(c *run.Ctx) (res run.Result) {
 		for i := range got {
 			got[i] = splatref.DecodeSplat(data[i*32 : i*32+32])
 		}
-		compareAll("splat.Write (bytes vs published layout)", got)
+		compareAll("splat.Write (bytes vs published layout)"+ctx, got)
 		res.Count("splat/bytes_written", int64(len(data)))
 	}
 
 	// 4. polyform reads the reference encoding of the same cloud
-	readBack("splat.Read (reference-encoded file)", splatref.EncodeSplats(ss))
-
-	if c.Case < 2 {
-		smp := map[string]any{"splats": n, "pos_class": d.posClass, "scale_class": d.scaleClass, "file_bytes": len(data)}
-		if n > 0 {
-			smp["splat_0"] = ss[0]
-		}
-		res.Sample = smp
-	}
-	return
+	readBack("splat.Read (reference-encoded file)"+ctx, splatref.EncodeSplats(ss))
+	return data
 }
